@@ -43,14 +43,14 @@ Typedefs == Range(TypedefSeq)
 
 (* enums: E_s has a negative enumerator (int), E_u none (unsigned int), E_l needs 64 bits *)
 En(id, rust) == [k |-> "en", id |-> id, rust |-> rust]
-EnumSeq == << En("E_s", "c_int"), En("E_u", "c_uint"), En("E_l", "c_ulong") >>
+EnumSeq == << En("E_s", "c_int"), En("enum_E_u", "c_uint"), En("E_l", "c_ulong") >>
 Enums == Range(EnumSeq)
 
 (* by-value aggregates: name encodes size and eightbyte classes (see lib/ffi.py STRUCTS) *)
 StructIds == <<"S1", "S2", "S3", "S4i", "S4f", "S7", "S8i", "S8f", "S8d", "S8m", "S9", "S12i", "S12f",
-              "S12m", "S15", "S16i", "S16d", "S16id", "S16di", "S16f", "S16m", "S17", "S24i", "S24d",
+              "struct_S12m", "S15", "S16i", "S16d", "S16id", "S16di", "S16f", "S16m", "S17", "S24i", "S24d",
               "S32d", "S32m", "S33", "S64i", "S64d">>
-UnionIds == <<"U4", "U8", "U8d", "U16", "U24">>
+UnionIds == <<"U4", "union_U8", "U8d", "U16", "U24">>
 St(id) == [k |-> "st", id |-> id]
 Un(id) == [k |-> "un", id |-> id]
 StructSeq == [i \in DOMAIN StructIds |-> St(StructIds[i])]
